@@ -126,7 +126,7 @@ def field_trefs(draw, prior_classes, enums, xml=True, depth_ok=True, facets=True
 
 @st.composite
 def universes(draw, max_classes=4, xml=True, inheritance=True, multi_ns=True, facets=True,
-              prim_exclude=(), xmldata=False):
+              prim_exclude=(), xmldata=False, same_names=True):
     salt = draw(st.integers(0, 2 ** 32 - 1))
     tns = "urn:t%08x" % salt
     nss = [tns]
@@ -166,6 +166,19 @@ def universes(draw, max_classes=4, xml=True, inheritance=True, multi_ns=True, fa
             # registers for substitution)
             ns = [c for c in classes if c["name"] == ext][0]["ns"]
         classes.append({"name": name, "ns": ns, "extends": ext, "fields": fields})
+    if same_names and len(nss) > 1 and draw(st.integers(0, 3)) == 0:
+        # two unrelated classes with the SAME type name in different namespaces
+        # ({urn:crm}Address next to {urn:logistics}Address)
+        for a in classes:
+            for b in classes:
+                if a is not b and a["ns"] != b["ns"] and not a.get("type_name") \
+                        and not b.get("type_name") and a["extends"] is None and b["extends"] is None \
+                        and not any(c["extends"] in (a["name"], b["name"]) for c in classes):
+                    b["type_name"] = a["name"]
+                    break
+            else:
+                continue
+            break
     return {"tns": tns, "nss": nss, "classes": classes, "enums": enums}
 
 
